@@ -441,11 +441,11 @@ def make_case(ctx, cid):
         c = u.case(cid, "bytes" if cid % 4 == 3 else "all")
         case = {"cid": cid, "cls": "fs", "base": c.image, "files": {"img": list(c.patches)}, "truncate": {},
                 "descr": [tuple(d) for d in c.descr]}
-        if cid % 8 == 1:
+        if cid % 6 == 1:
             # a geometry-bearing superblock field on top, with a valid superblock checksum
             pp, d = c06gen.sb_geom_op(run.rng_for(0, TAG, "sbgeom", cid), u.paths[c.image])
-            case["files"]["img"] = pp + case["files"]["img"] if cid % 16 == 1 else pp
-            case["descr"] = [d] + (case["descr"] if cid % 16 == 1 else [])
+            case["files"]["img"] = pp + case["files"]["img"] if cid % 12 == 1 else pp
+            case["descr"] = [d] + (case["descr"] if cid % 12 == 1 else [])
         if cid % 41 == 7:
             inf = u.info(c.image)
             rng = run.rng_for(0, TAG, "trunc", cid)
@@ -640,10 +640,29 @@ def main(tier, seed, replay=None, scale=1.0):
                                   "on the UNCORRUPTED base %s/%s, %s: %s" %
                                   (r["baseline"][0], r["baseline"][1], p["label"], p["v"].get("what", "")),
                                   replay={"stage": "baseline", "base": list(r["baseline"]), "label": p["label"]})
+        # watchdog expiries: one confirmation run (alone in its worker, longer limit) per new
+        # hang signature, all of them in parallel
+        def hang_key(binary, vv, r):
+            if vv.get("hang_func"):
+                return "C06 %s hang in %s" % (binary, vv["hang_func"])
+            return "C06 %s hang %s" % (binary, _image_class(r))
+        todo = {}
+        for r in results[len(bl_items):]:
+            for p in r.get("procs", []):
+                if p["v"] and p["v"]["verdict"] == "timeout":
+                    hk = hang_key(p["bin"], p["v"], r)
+                    if rep.match_known(hk) is None and hk not in todo:
+                        todo[hk] = (r["cid"], p["label"])
+        rerun = {}
+        if todo:
+            rr = run.pmap(_one, [(ctx, "case", cid, label, WATCHDOG_RERUN) for cid, label in todo.values()],
+                          workers=min(8, len(todo)))
+            rerun = {(cid, label): x for (cid, label), x in zip(todo.values(), rr)}
         exit_hist = {}
         seen_keys = {}
         cpu_by_label = {}
         confirmed_hangs = set()
+        pending_hangs = []
         for r in results[len(bl_items):]:
             if "error" in r:
                 rep.harness_error("case %s crashed the harness: %s" % (r["cid"], r["error"]))
@@ -685,11 +704,7 @@ def main(tier, seed, replay=None, scale=1.0):
                     # first expiry: run that single process again, alone, with a longer limit;
                     # only a second expiry is a hang.  Signature: where the watchdog's SIGABRT
                     # interrupted it (innermost frame of the tool), else the image class.
-                    def hang_key(vv):
-                        if vv.get("hang_func"):
-                            return "C06 %s hang in %s" % (p["bin"], vv["hang_func"])
-                        return "C06 %s hang %s" % (p["bin"], _image_class(r))
-                    hkey = hang_key(v)
+                    hkey = hang_key(p["bin"], v, r)
                     if rep.match_known(hkey) is not None:
                         # a listed hang signature is not confirmed again (300 s each)
                         rep.violation(hkey, "watchdog expiry with a listed signature", replay={"cid": r["cid"]})
@@ -698,11 +713,15 @@ def main(tier, seed, replay=None, scale=1.0):
                         seen_keys[hkey] = seen_keys.get(hkey, 0) + 1
                         rep.count("watchdog_expiries_of_confirmed_hang_signature")
                         continue
-                    rr = _one((ctx, "case", r["cid"], p["label"], WATCHDOG_RERUN))
+                    rr = rerun.get((r["cid"], p["label"]))
+                    if rr is None:
+                        # same signature as a process that is being confirmed elsewhere
+                        pending_hangs.append((hkey, r["cid"], p["label"]))
+                        continue
                     again = [q for q in rr.get("procs", []) if q["label"] == p["label"]]
                     rep.count("watchdog_reruns")
                     if again and again[0]["to"]:
-                        key = hang_key(again[0]["v"])
+                        key = hang_key(p["bin"], again[0]["v"], r)
                         confirmed_hangs.update([key, hkey])
                         seen_keys[key] = seen_keys.get(key, 0) + 1
                         rep.violation(key, "%s did not finish within %d s and again not within %d s alone "
@@ -733,6 +752,13 @@ def main(tier, seed, replay=None, scale=1.0):
                               replay={"cid": r["cid"], "label": p["label"], "class": r["cls"], "base": r["base"],
                                       "descr": r["descr"], "frames": v.get("frames"), "case": r.get("case")},
                               files={"report.txt": (v.get("what", "") or "").encode()})
+        for hkey, cid, label in pending_hangs:
+            if hkey in confirmed_hangs:
+                seen_keys[hkey] = seen_keys.get(hkey, 0) + 1
+                rep.count("watchdog_expiries_of_confirmed_hang_signature")
+            else:
+                rep.note_inconclusive("slow: %s cid=%d (signature %s not confirmed as a hang)" % (label, cid, hkey))
+                rep.count("slow_not_hang")
         subprocess.run("rm -rf -- %s/*" % w.dir, shell=True, stderr=subprocess.DEVNULL)
         rep.extra["exit_status_histogram"] = exit_hist
         rep.extra["wall_seconds_by_tool"] = {k: round(v, 1) for k, v in cpu_by_label.items()}
